@@ -43,10 +43,11 @@ static struct iv_event cmd_ev[2];
 static volatile int cmd_done[2];
 static int cmd_op[2], cmd_arg[2];
 static volatile int never;
+static volatile int driver_done;
 static int hbudget, quick_target;
 static int spawning = -1;
 
-enum { CMD_SPAWN, CMD_BYPID, CMD_UNREG, CMD_KILL, CMD_EXIT };
+enum { CMD_SPAWN, CMD_BYPID, CMD_UNREG, CMD_KILL, CMD_CLEAN, CMD_EXIT };
 
 static int cur_loop(void)
 {
@@ -55,11 +56,14 @@ static int cur_loop(void)
 
 static const char *stname(int st)
 {
-	static char b[32];
-	if (WIFEXITED(st)) snprintf(b, sizeof(b), "exit%d", WEXITSTATUS(st));
-	else if (WIFSTOPPED(st)) snprintf(b, sizeof(b), "stopped");
-	else if (WIFCONTINUED(st)) snprintf(b, sizeof(b), "continued");
-	else snprintf(b, sizeof(b), "killed%d", WTERMSIG(st));
+	static __thread char bufs[4][32];
+	static __thread int which;
+	char *b = bufs[which++ & 3];
+#define sizeof_b 32
+	if (WIFEXITED(st)) snprintf(b, sizeof_b, "exit%d", WEXITSTATUS(st));
+	else if (WIFSTOPPED(st)) snprintf(b, sizeof_b, "stopped");
+	else if (WIFCONTINUED(st)) snprintf(b, sizeof_b, "continued");
+	else snprintf(b, sizeof_b, "killed%d", WTERMSIG(st));
 	return b;
 }
 
@@ -171,17 +175,22 @@ static void cmd_handler(void *_l)
 			mc_obs("L%d:kill-C%d=%d", l, a, r < 0 ? -1 : 0);
 		}
 		break;
-	case CMD_EXIT:
+	case CMD_CLEAN:
 		for (i = 0; i < NC; i++)
 			if (C[i].reg && C[i].owner == l) {
 				iv_wait_interest_unregister(C[i].wi);
 				C[i].reg = 0;
 				free_interest(&C[i]);
 			}
-		iv_event_unregister(&cmd_ev[l]);
 		break;
+	case CMD_EXIT:
+		/* the driver's last post: only once it has returned from it (and said so) may its target go away */
+		sched_wait_flag(&driver_done);
+		iv_event_unregister(&cmd_ev[l]);
+		return;
 	}
 	cmd_done[l] = 1;
+	sched_publish();
 }
 
 static void loop_body(int l)
@@ -192,6 +201,7 @@ static void loop_body(int l)
 	cmd_ev[l].handler = cmd_handler;
 	iv_event_register(&cmd_ev[l]);
 	cmd_done[l] = 1;
+	sched_publish();
 	iv_main();
 	iv_deinit();
 }
@@ -203,6 +213,7 @@ static void command(int l, int op, int arg)
 	cmd_done[l] = 0;
 	cmd_op[l] = op;
 	cmd_arg[l] = arg;
+	sched_publish();
 	iv_event_post(&cmd_ev[l]);
 	sched_wait_flag(&cmd_done[l]);
 }
@@ -295,8 +306,15 @@ out:
 	mc_obs("D:idle");
 	sched_wait_flag(&never);
 	mc_obs("D:teardown");
-	command(1, CMD_EXIT, 0);
-	command(0, CMD_EXIT, 0);
+	command(1, CMD_CLEAN, 0);
+	command(0, CMD_CLEAN, 0);
+	/* final posts; nobody waits for a reply, and the loops wait for driver_done before tearing down */
+	cmd_op[1] = cmd_op[0] = CMD_EXIT;
+	sched_publish();
+	iv_event_post(&cmd_ev[1]);
+	iv_event_post(&cmd_ev[0]);
+	driver_done = 1;
+	sched_publish();
 }
 
 static void check_obligations(const char *when, int zombies)
@@ -326,6 +344,8 @@ static int quiescent(void)
 	/* reaping is only promised while some interest is registered */
 	check_obligations("all threads idle", any_interest);
 	if (!never) {
+		/* the scenario is over and judged; the tear-down only serves the ledger: no schedule exploration in it */
+		sched_no_more_choices = 1;
 		never = 1;
 		return 1;
 	}
@@ -374,6 +394,9 @@ static void exec_one(void)
 		mc_obs("m%d pop%d quick%d", method, pop, q);
 	}
 	allocs0 = env_lib_allocs_live;
+	/* iv_init(3): the very first iv_init of the process must complete before other threads call it */
+	iv_init();
+	iv_deinit();
 	tid_of[0] = 0;
 	tid_of[1] = l1 = sched_spawn("L1", l1_thread, NULL);
 	d = sched_spawn("D", driver, NULL);
